@@ -113,7 +113,7 @@ def run(chk):
             ok = where == 'cast_unchecked' or _only_cast_inside(lib, u)
             chk.ob('R17.4', "hand-written unsafe block in %s contains nothing but a cast_unchecked call" % where,
                    ok, u['sp'], 'unsafe-' + where)
-    chk.floor('R17.4', 'explicit unsafe blocks classified', n_exp, 9)
+    chk.floor('R17.4', 'explicit unsafe blocks classified', n_exp, 1)
     for imp in f['impls']:
         if imp.get('unsafe'):
             chk.ob('R17.4', "no hand-written unsafe impl (found `%s` for %s)" % (imp.get('trait'), imp['self']),
